@@ -2,29 +2,33 @@ import FV.Model.Scalar
 /-
   Executable model of `circle_circle_intersection_area` (tools/force/fruchterman_reingold.py), as repaired
   by `fixes/C17_acos_clamp.diff` (quotients clamped into [-1, 1] before `math.acos`, result clamped into
-  `[0, area of the smaller disc]`) and `fixes/C17_underflow_scale.diff` (lengths taken relative to the larger
-  radius; a divisor that still rounds to zero returns the area of the smaller disc).
+  `[0, area of the smaller disc]`), `fixes/C17_underflow_scale.diff` (lengths taken relative to the larger
+  radius; a divisor that still rounds to zero returns the area of the smaller disc),
+  `fixes/C17_near_equal_radii.diff` (numerators of the two quotients with the difference of squares factored:
+  `(a - b) * (a + b) + e**2`) and `fixes/C17_far_overflow.diff` (centre distance by `math.hypot` on the coordinate
+  differences instead of `Point.norm`, whose squares overflow).
 
-  The function is generic in a record `Fns` of the library functions it calls (`x ** 2`, `x ** (1/2)`,
-  `math.acos`, `math.sin`, `math.pi`).  The partial ones return `Except`: Python's `math.acos` raises
-  `ValueError` outside [-1, 1]; `x ** (1/2)` of a negative float is a complex number, on which the next
-  comparison raises `TypeError`; float division by zero raises `ZeroDivisionError`.
-  Executed at `Float` with the C library functions (the ones CPython calls); proved at `ℝ`.
+  The function is generic in a record `Fns` of the library functions it calls (`x ** 2`, `math.hypot`,
+  `math.acos`, `math.sin`, `math.pi`).  The partial one returns `Except`: Python's `math.acos` raises
+  `ValueError` outside [-1, 1]; float division by zero raises `ZeroDivisionError`.  `math.hypot` of two floats
+  never raises (it returns `inf` when the result is not a double).
+  Executed at `Float` with the C library functions (the ones CPython calls) and a transcription of CPython 3.12's
+  `math.hypot` (`pyHypot`, which is plain double arithmetic + `sqrt`); proved at `ℝ`.
 -/
 namespace FV.Disc
 
-inductive PyErr | valueError | zeroDivision | typeError
+inductive PyErr | valueError | zeroDivision
   deriving DecidableEq, Repr
 
 def PyErr.toStr : PyErr → String
-  | .valueError => "ValueError" | .zeroDivision => "ZeroDivisionError" | .typeError => "TypeError"
+  | .valueError => "ValueError" | .zeroDivision => "ZeroDivisionError"
 
 /-- the library functions used by the code. -/
 structure Fns (α : Type) where
   /-- `x ** 2` -/
   sq : α → α
-  /-- `x ** (1 / 2)` (`Point.norm`) -/
-  root : α → Except PyErr α
+  /-- `math.hypot(x, y)` -/
+  hypot : α → α → α
   /-- `math.acos` -/
   acos : α → Except PyErr α
   /-- `math.sin` -/
@@ -50,9 +54,9 @@ variable {α : Type} [Add α] [Sub α] [Mul α] [Div α] [Neg α] [LT α] [LE α
 /-- `max(-1.0, min(1.0, q))` -/
 @[inline] def clamp (q : α) : α := pyMax negOne (pyMin one q)
 
-/-- `(c1 - c2).norm()`:  `Point(x1 + -x2, y1 + -y2)`, then `(x**2 + y**2)**(1/2)`. -/
+/-- `math.hypot(c1.x - c2.x, c1.y - c2.y)` (never raises; `Except` only for the `do` block of `area`). -/
 def dist (F : Fns α) (x1 y1 x2 y2 : α) : Except PyErr α :=
-  F.root (F.sq (x1 + -x2) + F.sq (y1 + -y2))
+  .ok (F.hypot (x1 - x2) (y1 - y2))
 
 /-- `math.pi * min(r1, r2)**2` -/
 def small (F : Fns α) (r1 r2 : α) : α := F.pi * F.sq (pyMin r1 r2)
@@ -62,9 +66,10 @@ def small (F : Fns α) (r1 r2 : α) : α := F.pi * F.sq (pyMin r1 r2)
 
 instance (x : α) : Decidable (isZero x) := by unfold isZero; infer_instance
 
-/-- quotient `(a**2 + e**2 - b**2) / (2 * a * e)` (cosine of the angle at the first centre). -/
+/-- quotient `((a - b) * (a + b) + e**2) / (2 * a * e)` (cosine of the angle at the first centre; the numerator
+    is `a² + e² - b²` with the difference of the squares factored). -/
 def quot (F : Fns α) (a b e : α) : Except PyErr α :=
-  pyDiv (F.sq a + F.sq e - F.sq b) (two * a * e)
+  pyDiv ((a - b) * (a + b) + F.sq e) (two * a * e)
 
 /-- `a**2 * alpha + b**2 * beta - e * a * math.sin(alpha)` -/
 def lensRaw (F : Fns α) (a b e al be : α) : α :=
@@ -94,10 +99,65 @@ def area (F : Fns α) (x1 y1 r1 x2 y2 r2 : α) : Except PyErr α := do
   let d ← dist F x1 y1 x2 y2
   areaD F r1 r2 d
 
-/-- the C library at `Float` (what CPython calls for `**`, `math.acos`, `math.sin`). -/
+/-! ### `math.hypot` of CPython 3.12 at `Float`
+
+  `math_hypot` (Modules/mathmodule.c) takes the absolute values, their maximum (ignoring NaN) and calls
+  `vector_norm`: the coordinates are scaled by a power of two so that the largest is in [0.5, 1), each square is
+  accumulated exactly (Veltkamp split `x = hi + lo`, the three partial products added to `csum` starting at 1.0
+  with the rounding errors collected in `frac1..3`), followed by one Newton correction of the square root.
+  Everything is `+ - * /`, `sqrt`, `frexp`, `ldexp` on doubles, transcribed statement by statement. -/
+
+/-- `oldcsum = csum; csum += x; frac += (oldcsum - csum) + x` -/
+@[inline] def hypAcc (csum frac x : Float) : Float × Float :=
+  let csum' := csum + x
+  (csum', frac + ((csum - csum') + x))
+
+/-- Veltkamp split: `t = x * T27; hi = t - (t - x); lo = x - hi`. -/
+@[inline] def hypSplit (x : Float) : Float × Float :=
+  let t := x * 134217729.0
+  let hi := t - (t - x)
+  (hi, x - hi)
+
+/-- one iteration of the loop of `vector_norm` on the coordinate `x` (already absolute). -/
+def hypStep (scale : Float) (st : Float × Float × Float × Float) (x : Float) : Float × Float × Float × Float :=
+  let (csum, frac1, frac2, frac3) := st
+  let (hi, lo) := hypSplit (x * scale)
+  let (csum, frac1) := hypAcc csum frac1 (hi * hi)
+  let (csum, frac2) := hypAcc csum frac2 (2.0 * hi * lo)
+  (csum, frac1, frac2, frac3 + lo * lo)
+
+/-- `vector_norm(2, [x, y], max, 0)` for a finite non-zero `max` whose `frexp` exponent is at least -1023. -/
+def hypNorm (x y mx : Float) : Float :=
+  let scale := Float.scaleB 1.0 (-(Float.frExp mx).2)
+  let (csum, frac1, frac2, frac3) := hypStep scale (hypStep scale (1.0, 0.0, 0.0, 0.0) x) y
+  let h := Float.sqrt (csum - 1.0 + (frac1 + frac2 + frac3))
+  let (hi, lo) := hypSplit h
+  let (csum, frac1) := hypAcc csum frac1 (-hi * hi)
+  let (csum, frac2) := hypAcc csum frac2 (-2.0 * hi * lo)
+  let (csum, frac3) := hypAcc csum frac3 (-lo * lo)
+  let c := csum - 1.0 + (frac1 + frac2 + frac3)
+  (h + c / (2.0 * h)) / scale
+
+/-- `DBL_MIN` = 2⁻¹⁰²² -/
+def dblMin : Float := Float.scaleB 1.0 (-1022)
+
+/-- `math.hypot(x, y)` -/
+def pyHypot (x y : Float) : Float :=
+  let ax := Float.abs x
+  let ay := Float.abs y
+  let m0 : Float := if ax > 0.0 then ax else 0.0        -- `if (x > max) max = x`, `max` initially 0.0
+  let mx := if ay > m0 then ay else m0
+  if mx.isInf then mx
+  else if ax.isNaN || ay.isNaN then ax + ay              -- NaN
+  else if mx == 0.0 then mx
+  else if (Float.frExp mx).2 < -1023 then                -- `ldexp(1.0, -max_e)` would overflow:
+    dblMin * hypNorm (ax / dblMin) (ay / dblMin) (mx / dblMin)   -- subnormals are made normal first
+  else hypNorm ax ay mx
+
+/-- the C library at `Float` (what CPython calls for `**`, `math.acos`, `math.sin`) and CPython's `math.hypot`. -/
 def floatFns : Fns Float where
   sq x := Float.pow x 2.0
-  root x := if x < 0.0 then .error .typeError else .ok (Float.pow x 0.5)
+  hypot := pyHypot
   acos x := if x < -1.0 ∨ 1.0 < x then .error .valueError else .ok (Float.acos x)
   sin := Float.sin
   pi := 3.141592653589793
